@@ -26,7 +26,7 @@ pub fn def() -> CheckDef {
                variables; fresh constants must not be original variables. Non-trivial: the network has an unknown function of arity >= 1; \
                distinct by network text.",
         assumptions: &["variable names are plain identifiers acceptable to the .bnet format", "truth tables are enumerated over all network variables (<= 5) and all fresh constants (<= 16)"],
-        cases: |t| if t == Tier::Quick { 800 } else { 40_000 },
+        cases: |t| if t == Tier::Quick { 3000 } else { 60_000 },
         needs: |t| {
             let m = if t == Tier::Quick { 1 } else { 40 };
             vec![("distinct_nontrivial", 100 * m), ("var_implicit", 50 * m), ("var_named_unknown", 50 * m), ("var_fully_specified", 50 * m), ("net_shared_symbol", 20 * m), ("net_nested_application", 10 * m), ("net_name_like_constant", 10 * m), ("families_compared", 500 * m)]
@@ -56,10 +56,18 @@ fn run(rng: &mut Rng, _idx: u64, tier: Tier) -> CaseOut {
     nopts.nested_params = rng.chance(1, 4);
     let mut net = gen_net(rng, &nopts);
     let mut collision_name = false;
-    if rng.chance(1, 8) && net.n() >= 2 {
+    if rng.chance(1, 4) && net.n() >= 2 {
         // a variable whose name looks like a generated constant of another variable / function
         let base = net.names[0].clone();
-        let candidate = format!("{}_{}", if rng.coin() { base } else { "f".to_string() }, if rng.coin() { "1" } else { "0" });
+        // prefer the name a synthetic constant of an actually used unknown function would get
+        let used: Vec<(String, usize)> = net.named_params().into_iter().collect();
+        let candidate = if !used.is_empty() && rng.chance(3, 4) {
+            let (f, arity) = rng.pick(&used).clone();
+            let bits: String = (0..arity).map(|_| if rng.coin() { '1' } else { '0' }).collect();
+            format!("{f}_{bits}")
+        } else {
+            format!("{}_{}", if rng.coin() { base } else { "f".to_string() }, if rng.coin() { "1" } else { "0" })
+        };
         if !net.names.contains(&candidate) {
             let last = net.n() - 1;
             net.names[last] = candidate;
